@@ -175,6 +175,14 @@ func TsigGenerateWithProvider(m *Msg, provider TsigProvider, requestMAC string, 
 
 	rr := m.Extra[len(m.Extra)-1].(*TSIG)
 	m.Extra = m.Extra[0 : len(m.Extra)-1] // kill the TSIG from the msg
+	// Defaults for the stub TSIG. They only apply when signing: a verifier has
+	// to use the values that are in the message it received.
+	if rr.TimeSigned == 0 {
+		rr.TimeSigned = uint64(time.Now().Unix())
+	}
+	if rr.Fudge == 0 {
+		rr.Fudge = 300 // Standard (RFC) default.
+	}
 	mbuf, err := m.Pack()
 	if err != nil {
 		return nil, "", err
@@ -262,12 +270,6 @@ func tsigVerify(msg []byte, provider TsigProvider, requestMAC string, timersOnly
 // Create a wiredata buffer for the MAC calculation.
 func tsigBuffer(msgbuf []byte, rr *TSIG, requestMAC string, timersOnly bool) ([]byte, error) {
 	var buf []byte
-	if rr.TimeSigned == 0 {
-		rr.TimeSigned = uint64(time.Now().Unix())
-	}
-	if rr.Fudge == 0 {
-		rr.Fudge = 300 // Standard (RFC) default.
-	}
 
 	// Replace message ID in header with original ID from TSIG
 	binary.BigEndian.PutUint16(msgbuf[0:2], rr.OrigId)
